@@ -89,6 +89,20 @@ var Scenarios = []Scenario{
 			*obs = append(*obs, fmt.Sprint(n, keys, stopped, fired))
 		})
 	}, Want: func(obs []string) bool { return len(obs) == 1 && obs[0] == "3 2 true false" }},
+	{Name: "go-args", P: 2, E: 1, Run: func(sp Spawn, yield func(), obs *[]string) {
+		out := make(chan int)
+		sp("m", func() {
+			SpawnSum(3, out)
+			sum := 0
+			for i := 0; i < 3; i++ {
+				sum += <-out
+			}
+			*obs = append(*obs, fmt.Sprint(sum))
+		})
+	}, Want: func(obs []string) bool { return len(obs) == 1 && obs[0] == "16" }},
+	{Name: "named-chan", P: 2, E: 1, Run: func(sp Spawn, yield func(), obs *[]string) {
+		sp("m", func() { *obs = append(*obs, fmt.Sprint(Named(4))) })
+	}, Want: func(obs []string) bool { return len(obs) == 1 && obs[0] == "5" }},
 	{Name: "labeled", P: 2, E: 1, Run: func(sp Spawn, yield func(), obs *[]string) {
 		ch, done := make(chan int), make(chan struct{})
 		sp("s", func() { ch <- 1; ch <- 2; close(done) })
